@@ -209,7 +209,12 @@ type Program struct {
 	// Pause: schedule point -> microseconds to sleep there (a plain sleep: unlike parking it adds no synchronisation that
 	// could hide a race from the detector); e.g. Close pausing after it marked a Reader closed widens that window.
 	Pause map[string]int `json:"pause,omitempty"`
+	// Logger: the Writer / Reader gets a Logger and an ErrorLogger (no-ops that are safe for concurrent use): the logging
+	// closures of the library run and read whatever they print.
+	Logger bool `json:"logger,omitempty"`
 }
+
+var nopLogger = kafka.LoggerFunc(func(string, ...interface{}) {})
 
 func init() {
 	ev.Register("program", func(tb ev.TB, p Program) { runProgram(tb, p) })
@@ -362,9 +367,16 @@ func setup(tb ev.TB, p Program) *env {
 		case "sync-multitopic":
 			e.w.Topic = "" // the topic travels with each message
 		}
+		if p.Logger {
+			e.w.Logger, e.w.ErrorLogger = nopLogger, nopLogger
+		}
 	case "reader":
-		e.r = kafka.NewReader(kafka.ReaderConfig{Brokers: []string{addr}, Topic: "t", Partition: 0, Dialer: e.dialer(), MinBytes: 1, MaxBytes: 1 << 20, MaxWait: 50 * time.Millisecond,
-			ReadLagInterval: 5 * time.Millisecond, ReadBackoffMin: time.Millisecond, ReadBackoffMax: 5 * time.Millisecond, MaxAttempts: 2, QueueCapacity: 3})
+		cfg := kafka.ReaderConfig{Brokers: []string{addr}, Topic: "t", Partition: 0, Dialer: e.dialer(), MinBytes: 1, MaxBytes: 1 << 20, MaxWait: 50 * time.Millisecond,
+			ReadLagInterval: 5 * time.Millisecond, ReadBackoffMin: time.Millisecond, ReadBackoffMax: 5 * time.Millisecond, MaxAttempts: 2, QueueCapacity: 3}
+		if p.Logger {
+			cfg.Logger, cfg.ErrorLogger = nopLogger, nopLogger
+		}
+		e.r = kafka.NewReader(cfg)
 	case "groupreader":
 		cfg := kafka.ReaderConfig{Brokers: []string{addr}, Topic: "t", GroupID: "g", Dialer: e.dialer(), MinBytes: 1, MaxBytes: 1 << 20, MaxWait: 50 * time.Millisecond,
 			ReadBackoffMin: time.Millisecond, ReadBackoffMax: 5 * time.Millisecond, MaxAttempts: 2, QueueCapacity: 3,
@@ -372,6 +384,9 @@ func setup(tb ev.TB, p Program) *env {
 			PartitionWatchInterval: 20 * time.Millisecond, WatchPartitionChanges: true}
 		if p.Variant == "interval-commit" {
 			cfg.CommitInterval = 5 * time.Millisecond
+		}
+		if p.Logger {
+			cfg.Logger, cfg.ErrorLogger = nopLogger, nopLogger
 		}
 		e.r = kafka.NewReader(cfg)
 	case "conn", "batch":
@@ -905,6 +920,9 @@ func genProgram(t *rapid.T, subject string) Program {
 		p.Threads = append(p.Threads, ops)
 	}
 	p.Reps = rapid.SampledFrom([]int{1, 2, 5}).Draw(t, "reps")
+	if subject == "writer" || subject == "reader" || subject == "groupreader" {
+		p.Logger = rapid.IntRange(0, 2).Draw(t, "logger") == 0
+	}
 	if subject == "balancer" || subject == "codec" {
 		p.Reps *= 20 // pure in-memory calls: repeat so that they actually overlap
 	}
